@@ -587,6 +587,32 @@ def run(case):
         if ru.dV.shape[-1] != 1:
             outcomes.add("uniform-not-compressed")
         reproduce("uniform", ru)
+        # the compressed storage is a promise about ONE mesh: a uniform region that is re-evaluated on another geometry of the
+        # same topology WITHOUT repeating the flag (copy(mesh=...), reload(mesh=...), update callback) is a general region
+        import felupe as fem_
+
+        P0 = np.asarray(region.mesh.points, float)
+        lo_, hi_ = P0.min(0), P0.max(0)
+        Pg = lo_ + (hi_ - lo_) * ((P0 - lo_) / (hi_ - lo_)) ** 1.4
+        mg = fem_.Mesh(Pg, region.mesh.cells, region.mesh.cell_type)
+        with warnings.catch_warnings():
+            warnings.simplefilter("ignore")
+            rfull = type(region)(mg, **_rk(kind, has_hess=has_hess))
+            variants = {"copy(mesh)": ru.copy(mesh=mg)}
+            r2_ = type(region)(region.mesh, **_rk(kind, has_hess=has_hess), uniform=True)
+            r2_.reload(mesh=mg)
+            variants["reload(mesh)"] = r2_
+            m3_ = fem_.Mesh(P0.copy(), region.mesh.cells.copy(), region.mesh.cell_type)
+            r3_ = type(region)(m3_, **_rk(kind, has_hess=has_hess), uniform=True)
+            m3_.update(points=Pg, callback=r3_.reload)
+            variants["update(callback=reload)"] = r3_
+        cnt["trans"] += 4
+        for vlab, rv in variants.items():
+            if rv.dV.shape != rfull.dV.shape:
+                bad(f"uniform/then-{vlab}/shape", "dV of a uniform region re-evaluated on a graded mesh without the uniform flag: one column per cell", list(rv.dV.shape), list(rfull.dV.shape))
+                continue
+            cmp(f"uniform/then-{vlab}/dV", "uniform region re-evaluated on a graded mesh (flag not repeated) vs a general region on that mesh: dV", rv.dV, rfull.dV, 1e-13)
+            cmp(f"uniform/then-{vlab}/dhdX", "uniform region re-evaluated on a graded mesh (flag not repeated) vs a general region on that mesh: dhdX", rv.dhdX, rfull.dhdX, 1e-12)
 
     # ---- float32 copy
     r32 = region.astype(np.float32)
